@@ -1,7 +1,7 @@
 (** C11 — Poetic literals denote the number or string their words spell.
     Statements only; proofs in Proofs/PoeticLaws.v. *)
 From Coq Require Import List ZArith NArith Bool QArith Qpower.
-From RRSS Require Import Base.Outcome Base.Chars Base.F64 Front.Ast Front.Token Front.Lexer Front.Poetic Front.Parser Proofs.PoeticLaws Proofs.ParseSafe.
+From RRSS Require Import Base.Outcome Base.Chars Base.F64 Front.Ast Front.Token Front.Lexer Front.Poetic Front.Parser Proofs.PoeticLaws Proofs.ParseSafe Proofs.FloatExact.
 Import ListNotations.
 
 (** In exact arithmetic the algorithm of PoeticNumberLiteral::compute_value (the same generic
@@ -51,6 +51,17 @@ Proof. exact poetic_rhs_otherwise_is_literal. Qed.
 
 (** Non-vacuity: `a lovestruck ladykiller. ice-cold dream's end` : digits 1 0 0 . 8 6 3 = 100.863;
     the f64 instance prints 100.863 *)
+(** ... exactly for integers: the f64 value the interpreter computes (repeated-squaring powi, products,
+    a sum that starts from -0.0) for a literal without a period and with at most 15 digits is exactly the
+    integer those digits spell (such integers are below 10^15 < 2^53).  Proved with Flocq (exact integer
+    addition) and by evaluation of the 150 digit-times-power products. *)
+Theorem C11_poetic_integer_exact :
+  forall elems,
+  poetic_int_digits elems = Z.of_nat (length (poetic_digits elems)) ->
+  (1 <= length (poetic_digits elems) <= 15)%nat ->
+  compute_value elems = f_of_Z (number (poetic_digits elems)).
+Proof. exact poetic_integer_exact. Qed.
+
 (** A poetic string literal is the exact text of the source after the `says` token and one space, up
     to the next line-break token (or the end of the source): over any token list of ordered slices of
     the buffer ([TI], what the lexer produces: C12), with [says] the token just consumed. *)
@@ -76,3 +87,4 @@ Proof. vm_compute. repeat split; reflexivity. Qed.
 
 Print Assumptions C11_poetic_value_exact.
 Print Assumptions C11_poetic_string_exact.
+Print Assumptions C11_poetic_integer_exact.
